@@ -332,6 +332,13 @@ func c09Cells(tier string) []Cell {
 						cells = append(cells, Cell{ID: c09Cell{Mode: "failover", F: &c}.id()})
 					}
 
+					// the builder writes to caches of its own with the context it was handed and reuses its key buffer
+					if sc == "o" {
+						sw := FCfg{Front: front, SR: boolBits(bits, 0), SU: boolBits(bits, 1), MS: boolBits(bits, 2), Init: init + "S", FailC: "00", Script: sc,
+							Threads: [][]GOp{{{Key: 0}, {Key: 1}}}, Tags: []string{"sidewrite"}}
+						cells = append(cells, Cell{ID: c09Cell{Mode: "failover", F: &sw}.id()})
+					}
+
 					// two Gets on two different keys with the same xxhash64
 					col := FCfg{Front: front, SR: boolBits(bits, 0), SU: boolBits(bits, 1), MS: boolBits(bits, 2), Init: init + "A", FailC: "00", Script: sc, Collide: true,
 						Threads: [][]GOp{{{Key: 0}}, {{Key: 1}}}}
@@ -483,6 +490,36 @@ func c09Failover(cfg FCfg, env *Env) CellResult {
 			if !found || isNil || t.K != h.names[k] || t.O != "b" {
 				vs = append(vs, Violation{Signature: fmt.Sprintf("C09 %s built-value-not-under-original-key", front),
 					Detail: fmt.Sprintf("key %s was built successfully (%v) but the backend holds (%v found=%v) under the original key bytes", h.names[k], last.Tok, t, found)})
+			}
+		}
+
+		// What the builder stored in its own caches sits under the key bytes it passed in, whatever it did to its buffer
+		// afterwards.
+		if h.sideSM != nil {
+			want := map[string]bool{}
+
+			for k, n := range h.nbuild {
+				if n > 0 {
+					want["part-of-"+h.names[k]] = true
+				}
+			}
+
+			got := map[string]bool{}
+			_, _ = h.sideSM.Walk(func(e cache.Entry) error { got["ShardedMap:"+string(e.Key())] = true; return nil })
+			_, _ = h.sideOF.Walk(func(e cache.EntryOf[int]) error { got["ShardedMapOf:"+string(e.Key())] = true; return nil })
+
+			for _, kind := range []string{"ShardedMap", "ShardedMapOf"} {
+				for k := range want {
+					if !got[kind+":"+k] {
+						vs = append(vs, Violation{Signature: fmt.Sprintf("C09 %s builder-side-write-lost-its-key %s", front, kind),
+							Detail: fmt.Sprintf("the builder wrote %q to a %s of its own (with the context it was handed) and then reused its key buffer; the cache now holds keys %v", k, kind, got)})
+					}
+				}
+			}
+
+			if len(got) != 2*len(want) {
+				vs = append(vs, Violation{Signature: fmt.Sprintf("C09 %s builder-side-write-foreign-key", front),
+					Detail: fmt.Sprintf("the builder's own caches hold %v, written were %v (each to both)", got, want)})
 			}
 		}
 
@@ -772,7 +809,7 @@ func init() {
 		Rule: "three pairwise xxhash64-colliding 64-byte keys are CONSTRUCTED from the hash's algebra (asserted against cespare/xxhash at run time) plus one plain key; " +
 			"BFS over sequences of Read/Write/Delete/ExpireAll/Advance/AddInvalidationLabels/InvalidateByLabels on them for 3 backends, once with fresh key slices and once with one scratch buffer that is overwritten after every call; " +
 			"oracle: every answer is the ideal per-key model's answer, or a miss that a later write of a colliding key explains; Walk reports only written keys with their own value and expiry; " +
-			"Failover: caller overwrites / reuses the key buffer at every scheduling position relative to the background build; the built value must sit under the original key bytes; " +
+			"Failover: caller overwrites / reuses the key buffer at every scheduling position relative to the background build; the built value must sit under the original key bytes; what the builder writes to caches of its own (with the context it was handed, from a scratch key buffer) must sit under the bytes it passed in; " +
 			"concurrent: thread A every 1-2 op sequence, thread B every 1 (thorough 1-2) op sequence over {Write,Read,Delete} x two colliding keys, all schedules, each history checked with porcupine against a slot model (an operation affects its own key only; a write may evict the colliding key)",
 		Assumptions: []string{
 			"a collision may cost a miss only when a colliding key was written after the key's last write (stricter than 'any miss', independent of the slot design)",
